@@ -45,7 +45,8 @@ ASSUMPTIONS = [
 ]
 RULE = {'C15': 'records generated from VERIF_SEED: topic (ASCII, empty, non-ASCII bytes, long) x partition (int32 '
                'boundaries + random) x acks {-1,0,1,2} x payload list (empty list, empty payloads, 1-64 byte and '
-               '1-4 KiB payloads of arbitrary bytes) x correlation id (byte boundaries + random); produce / metadata '
+               '1-4 KiB payloads of arbitrary bytes) x correlation id (byte boundaries + random), plus the bounded model '
+               'domain (every list of <= 2 payloads of <= 2 bytes over {0,255}); produce / metadata '
                'responses with 0-3 topics/brokers, 0-3 partitions, error codes incl. -1, int64 offset boundaries; '
                'routing runs with 2-6 requests in flight and permuted / missing / unknown replies; ~10 records per '
                'trace, one class per trace; every trace is non-trivial except header-only ones; distinct by '
@@ -70,7 +71,7 @@ def models(prop, tier):
     ]
   return [
     dict(module='KafkaWireCheck', cfg='KafkaWireCheck_t.cfg', workers=12, timeout=3000,
-         what='as quick with topics <= 2 bytes, 7 partitions, <= 3 payloads, 9 correlation ids'),
+         what='as quick with 5 topics (<= 2 bytes), 7 partitions, <= 3 payloads of <= 2 bytes, 5 correlation ids'),
     dict(module='KafkaWireCheck', cfg='KafkaWireCheck_asis.cfg', workers=2, expect_violation='ImplAgrees',
          what='code-shaped _BuildHeader as of the snapshot: cannot be packed'),
   ]
@@ -221,22 +222,37 @@ def _route_script(rng):
 
 def cases(prop, tier, seed):
   rng = random.Random(104729 * int(seed) + 15)
-  mult = 1 if tier == 'quick' else 10
-  per = 10
+  mult = 1 if tier == 'quick' else 4       # thorough: 4x the traces, 3x the records per trace
+  per = 10 if tier == 'quick' else 30
   out = []
   quick = tier == 'quick'
-  plan = [('small', 56 * mult, per), ('long', 4 * mult, 4), ('big', 6 if quick else 40, 3 if quick else 8)]
+  plan = [('small', 72 * mult, per), ('long', 4 * mult, 4), ('big', 6 if quick else 40, 3 if quick else 8)]
   for cls, n, k in plan:
     for c in range(n):
       recs = [_req_rec(rng, i if c % 4 == 0 else 99, cls) for i in range(k)]
       if c % 8 == 0:
         recs.append({'k': 'meta', 'corr': _pick(rng, 99, TAG_BOUNDARY, 0, (1 << 24) - 1)})
       out.append({'mode': 'direct', 'cls': 'req-' + cls, 'recs': recs})
+  # systematic: the bounded domain of KafkaWireCheck on the real code
+  pset = [[], [0], [255], [0, 0], [0, 255], [255, 0], [255, 255]]
+  plists = [[]] + [[a] for a in pset] + [[a, b] for a in pset for b in pset]
+  sysrecs = []
+  for i, pl in enumerate(plists):
+    sysrecs.append({'k': 'req', 'topic': [[], [65], [255]][i % 3], 'partition': [0, 256, 65536, (1 << 31) - 1][i % 4],
+                    'acks': [-1, 0, 1][i % 3], 'acks_kw': bool(i % 2), 'payloads': pl,
+                    'corr': [0, 65536, (1 << 24) - 1][i % 3]})
+  for t in ([], [65], [255]):
+    for pa in (0, 256, 65536, (1 << 31) - 1):
+      for a in (-1, 0, 1):
+        sysrecs.append({'k': 'req', 'topic': t, 'partition': pa, 'acks': a, 'acks_kw': False, 'payloads': [[0, 255]],
+                        'corr': TAG_BOUNDARY[len(sysrecs) % len(TAG_BOUNDARY)]})
+  for i in range(0, len(sysrecs), per):
+    out.append({'mode': 'direct', 'cls': 'systematic', 'recs': sysrecs[i:i + per]})
   for c in range(14 * mult):
     out.append({'mode': 'direct', 'cls': 'presp', 'recs': [_presp_rec(rng) for _ in range(per)]})
   for c in range(14 * mult):
     out.append({'mode': 'direct', 'cls': 'mresp', 'recs': [_mresp_rec(rng) for _ in range(per)]})
-  for c in range(40 * mult):
+  for c in range(40 * (1 if tier == 'quick' else 10)):
     out.append(_route_script(rng))
   return out
 
